@@ -3,6 +3,7 @@
 \* generated, judged against the completed class table of the program.  Events whose terms mention a class that is not in the
 \* final table (or with another arity) cannot be judged and are counted as skipped.
 EXTENDS HTypeOpsTrace, HUnify
+Ops == INSTANCE HOperands
 RECURSIVE KnownT(_, _)
 KnownT(CT, t) == (t.k \in {"C", "K"} => t.n \in DOMAIN CT /\ (t.k = "K" \/ Len(t.a) = Len(CT[t.n].tp))) /\ \A j \in DOMAIN t.a : KnownT(CT, t.a[j])
 TermsOf(ev) ==
@@ -11,6 +12,7 @@ TermsOf(ev) ==
     [] ev.kind = "instantiate" -> UNION {Rng(ev.outs[o].args) : o \in DOMAIN ev.outs} \cup {ev.pre[x] : x \in DOMAIN ev.pre}
                                   \cup UNION {Rng(ev.tps[j].b) : j \in DOMAIN ev.tps}
     [] ev.kind = "unify" -> {ev.t1, ev.t2} \cup {ev.sigma[x] : x \in DOMAIN ev.sigma}
+    [] ev.kind = "match" -> {ev.S, ev.T}
     [] OTHER -> {}
 \* a primitive is read as its boxed class here (the implementation represents both by one class; C06 makes no claim about primitives)
 RECURSIVE Box(_)
@@ -38,6 +40,21 @@ EvBad(CT, ev) ==
     \* (the pool of candidate types is the program's, not a controlled one: a projection *inside* a chosen argument was made
     \*  elsewhere - C17 judges those by provenance - so SwitchesDeep is not an EV clause)
     [] ev.kind = "instantiate" -> {b \in BadEvent(CT, BoxEv(ev)) : b[1] # "SwitchesDeep"}
+    \* ---- generator scenes (HGenScene) ----
+    \* the member found for a wanted type has, under the instantiation chosen for the receiver and the method, a type below the wanted one;
+    \* every type parameter of the class and of the method got exactly one argument, none of them primitive
+    [] ev.kind = "match" ->
+         (IF SubTop(CT, AsType(CT, Box(ev.S)), Box(ev.T)) THEN {} ELSE {<<"match.MemberTyped", "plain">>})
+         \cup (IF ev.missing # <<>> THEN {<<"match.OneArgumentPerParameter", "plain">>} ELSE {})
+         \cup (IF \E x \in DOMAIN ev.inst : HasKind(ev.inst[x], {"P", "K"}) THEN {<<"match.NoPrimitiveOrBareArgument", "plain">>} ELSE {})
+         \* a function's type argument is a type, never a projection
+         \cup (IF \E x \in DOMAIN ev.finst : ev.finst[x].k = "W" THEN {<<"match.FunctionTypeArgumentProjected", "plain">>} ELSE {})
+    \* after unused type parameters were removed from a function header: the used ones are kept, and no remaining bound mentions a removed one
+    [] ev.kind = "prune" ->
+         LET names == {ev.after[j].n : j \in DOMAIN ev.after} IN
+         (IF \A x \in Rng(ev.used) : x \in names THEN {} ELSE {<<"prune.UsedKept", "plain">>})
+         \cup (IF \A j \in DOMAIN ev.after : ev.after[j].b = <<>> \/ FreeVars(ev.after[j].b[1]) \subseteq names THEN {} ELSE {<<"prune.TypeVarsInScope", "plain">>})
+    [] ev.kind = "compare" -> IF Ops!ComparableOperands(Cases[c].lang, ev.lt, ev.rt) THEN {} ELSE {<<"compare.OperandsComparable", "plain">>}
     [] OTHER -> BadEvent(CT, BoxEv(ev))
 EvReport == LET ev == Cases[c].events[e]  CT == Cases[c].ct IN
             IF ~Judgeable(CT, ev) THEN PrintT(ToJson([case |-> Cases[c].id, event |-> e, skipped |-> TRUE, bad |-> {}]))
